@@ -5,10 +5,13 @@
  *
  */
 
+#include <atomic>
+
 namespace opensmt {
 
 namespace {
-    bool globalStopFlag{false};
+    // Written by the thread requesting the stop, polled by the solving threads
+    std::atomic<bool> globalStopFlag{false};
 }
 
 void notifyGlobalStop() {
